@@ -23,7 +23,8 @@ character data = all text pieces and CDATA sections of the element, since c57545
 document element is refused by `read_event`, which keeps the nesting depth, since d51737b; `Deserializer::text`
 normalises the line ends of every text piece and CDATA section before references are resolved, since d365e05;
 attributes: `SerializeContent::attributes` / `start_of` / `attr_value` of `xml/ser.rs`, `Deserializer::attribute` of
-`xml/de.rs` over quick-xml's attribute iterator, since 680006e).
+`xml/de.rs` over quick-xml's attribute iterator, since 680006e; `GetBucketLocationOutput` is read from exactly one
+`LocationConstraint` element, since d00ca17).
 The lookahead state `peeked` / `next_slot` of `Deserializer` is the head of the remaining event list here:
 `peek_event` = look at the head, `consume_peeked` / `next_event` = drop it; `Empty` is expanded by `deEvents`.
 The field `start` of `Deserializer` (the start tag that was entered last, since 680006e) is read by generated code only
@@ -692,20 +693,12 @@ def encodeDoc (root : SerRoot) (s : Sch) (v : Val) : List Ev :=
     | .struct [.one (.str b)] => .start tag (nsAttr ns) :: textEv (escapeText b) ++ [.stop tag]
     | _ => [.start tag (nsAttr ns), .stop tag]
 
-/-- the callback of the hand-written `impl Deserialize for GetBucketLocationOutput` (xml/mod.rs):
-`if location_constraint.is_some() { DuplicateField }`, `let val = d.content()?`,
-`if !val.as_str().is_empty() { location_constraint = Some(val) }` -/
-def locationItem (tag : Bytes) (name _a : Bytes) (evs : List Ev) (acc : FVal) : R FVal :=
-  if name = tag then
-    if acc.isAbsent then
-      match textOf evs with
-      | .error e => .error e
-      | .ok (raw, r) =>
-        match decodeStr raw with
-        | .error e => .error e
-        | .ok b => .ok (if b = [] then .absent else .one (.str b), r)
-    else .error .duplicateField
-  else .error .unexpectedTagName
+/-- the last statement of the hand-written `impl Deserialize for GetBucketLocationOutput` (xml/mod.rs) on the
+`BucketLocationConstraint` it read: `if val.as_str().is_empty() { None } else { Some(val) }` — AWS answers the empty
+element for us-east-1 -/
+def locationVal : Val → Val
+  | .str [] => .struct [.absent]
+  | w => .struct [.one w]
 
 /-- `T::deserialize(&mut d)` followed by `d.expect_eof()` -/
 def decodeDoc (X : Ext) (root : DeRoot) (s : Sch) (evs : List Ev) : Except DeErr Val :=
@@ -738,15 +731,19 @@ def decodeDoc (X : Ext) (root : DeRoot) (s : Sch) (evs : List Ev) : Except DeErr
             | .error e => .error e
             | .ok r3 => match expectEof r3 with | .error e => .error e | .ok _ => .ok v
   | .location tag =>
-    -- hand-written: top-level `for_each_element`; `if location_constraint.is_some() { DuplicateField }`, then
-    -- `if !val.is_empty() { location_constraint = Some(val) }` — an empty constraint leaves the variable `None`,
-    -- so it may be followed by another `LocationConstraint` element
-    match forEach (locationItem tag) (evs.length + 1) evs .absent with
+    -- hand-written (xml/mod.rs): `d.named_element("LocationConstraint", Deserializer::content)` at
+    -- `BucketLocationConstraint` (a str-enum newtype: `String::deserialize_content`), then `locationVal` — the member
+    -- element is the document: exactly one (since d00ca17; until then a top-level `for_each_element` accepted no
+    -- element at all and an empty one followed by another: finding `xml-illformed-accepted:document-element`, fixed)
+    match expectStart tag evs with
     | .error e => .error e
-    | .ok (acc, r) =>
-      match expectEof r with
+    | .ok (a, r) =>
+      match decode X .str a r with
       | .error e => .error e
-      | .ok _ => .ok (.struct [acc])
+      | .ok (v, r') =>
+        match expectEnd tag r' with
+        | .error e => .error e
+        | .ok r'' => match expectEof r'' with | .error e => .error e | .ok _ => .ok (locationVal v)
 
 /-! ## writer (`quick_xml::Writer::write_event`, no indentation) -/
 
